@@ -14,7 +14,7 @@ from .sym import SBool, Num, Undecided, sbool
 
 class Obligation:
     __slots__ = ("name", "kind", "props", "pc", "goal", "cls", "expect", "meta", "where",
-                 "hyps", "view", "replay")
+                 "hyps", "view", "replay", "custom")
 
     def __init__(self, name, kind, goal, pc, props=(), cls="input", expect="unsat", meta=None,
                  where=None, hyps=(), view="smt", replay=None):
@@ -30,6 +30,7 @@ class Obligation:
         self.hyps = list(hyps)  # extra ground hypotheses (instantiated facts)
         self.view = view        # 'smt' | 'poly' (polynomial identity) | 'auto'
         self.replay = replay    # optional: callable(model_dict) -> {"suite","kind","params"}
+        self.custom = None
 
 
 class EndPath(Exception):
@@ -157,17 +158,56 @@ class Run:
         return None
 
     def oblige(self, name, goal, kind="post", cls="input", expect="unsat", meta=None, props=None,
-               hyps=(), view="smt", replay=None):
+               hyps=(), view="smt", replay=None, assuming=()):
         goal = sbool(goal)
         full = (self.scope + ":" if self.scope else "") + kind + ":" + name
-        ob = Obligation(full, kind, goal.z(), self.pc, props=props or self.props, cls=cls,
+        pc = list(self.pc) + [sbool(a).z() for a in assuming]
+        ob = Obligation(full, kind, goal.z(), pc, props=props or self.props, cls=cls,
                         expect=expect, meta=dict(meta or {}), where=self.where(),
                         hyps=list(hyps) + list(self.facts), view=view, replay=replay)
         self.obligations.append(ob)
         return ob
 
+    def oblige_custom(self, name, fn, kind="lemma", cls="input", props=None, meta=None):
+        """Obligation decided by a dedicated exact procedure `fn() -> result dict` (runs in
+        the pool), e.g. coefficient extraction on the step polynomial."""
+        full = (self.scope + ":" if self.scope else "") + kind + ":" + name
+        ob = Obligation(full, kind, z3.BoolVal(True), self.pc, props=props or self.props, cls=cls,
+                        meta=dict(meta or {}), where=self.where(), view="custom")
+        ob.replay = None
+        ob.meta["custom"] = True
+        ob.custom = fn
+        self.obligations.append(ob)
+        return ob
+
     def cover(self, name, meta=None):
         return self.oblige(name, SBool(True), kind="cover", expect="sat", meta=meta)
+
+    # ---- array side conditions
+    def index_check(self, k, size):
+        c = (k >= 0) & (k < size)
+        if c.concrete:
+            if not c.t:
+                raise IndexError("index out of bounds")
+            return
+        if not self.feasible(z3.Not(c.t)):
+            self.inline_proved = getattr(self, "inline_proved", 0) + 1
+            return
+        self.oblige("index-in-range", c, kind="call-pre", cls="input")
+
+    def fancy_index_check(self, idx, size):
+        k = sym.fresh_int("fk")
+        c = ((k >= 0) & (k < idx.axes[0].size)).implies((idx.at(k) >= 0) & (idx.at(k) < size))
+        self.oblige("fancy-index-in-range", c, kind="call-pre", cls="input")
+
+    def store_check(self, arr_dtype, val_dtype):
+        order = {"bool": 0, "int": 1, "float": 2, "complex": 3}
+        if order[val_dtype] > order[arr_dtype]:
+            self.oblige("no-narrowing-store[%s<-%s]" % (arr_dtype, val_dtype), SBool(False),
+                        kind="call-pre", cls="input")
+
+    def membership(self, arr, v):
+        raise Undecided("`x in array` (membership) is outside the modelled subset")
 
     def note_division(self, den):
         self.div_notes.append(den)
@@ -218,13 +258,33 @@ class Explorer:
 
 
 # --------------------------------------------------------------------------- loop hooks
-class LoopCtl:
-    """Run-time side of a rewritten `for` loop with an invariant.
+class _Poison:
+    """Value of a loop-assigned name the loop contract does not track: any use is undecided."""
 
-    spec: object with
-        inv(state: dict, i: Num, n: Num, ctx) -> SBool       loop invariant at iteration i
-        instances (optional): ...
-    """
+    def _bad(self, *a, **k):
+        raise Undecided("read of a loop-assigned variable that the loop contract does not track")
+
+    __add__ = __radd__ = __sub__ = __rsub__ = __mul__ = __rmul__ = __truediv__ = __rtruediv__ = _bad
+    __getitem__ = __setitem__ = __call__ = __bool__ = __iter__ = __len__ = __neg__ = __pow__ = _bad
+    __lt__ = __le__ = __gt__ = __ge__ = _bad
+
+    def __getattr__(self, k):
+        raise Undecided("read of a loop-assigned variable that the loop contract does not track")
+
+    def __repr__(self):
+        return "POISON"
+
+
+POISON = _Poison()
+
+
+class LoopCtl:
+    """Run-time side of a rewritten `for` loop.  The loop contract `spec` provides
+         on_enter(ctl)            obligations at loop entry (inv-init)
+         iter_state(ctl, i)       dict: state at the head of symbolic iteration i
+         on_step(ctl, new_state)  obligations after one execution of the UNCHANGED body
+         exit_state(ctl)          dict: state after the loop (iteration count n)
+    Names assigned in the body but not returned by the contract are poisoned."""
 
     def __init__(self, run, ordinal, fname, spec, iterable, pre_state):
         self.run = run
@@ -235,52 +295,47 @@ class LoopCtl:
         self.pre = pre_state
         self.n = iterable.length()
         self.cur = None
-        self.verify_body = None
         self.i = None
 
     def label(self, s):
         return "%s.loop%d.%s" % (self.fname, self.ordinal, s)
 
-    def _havoc(self, tag):
-        from .havoc import havoc_like
-        st = {}
-        for k, v in self.pre.items():
-            st[k] = havoc_like(v, "%s_%s_L%d" % (k, tag, self.ordinal))
-        return st
-
     def iterate(self):
         run = self.run
-        spec = self.spec
         n = self.n
-        # bound must be non-negative for the exit rule inv(n)
-        run.oblige(self.label("bound-nonneg"), n >= 0, kind="inv-init", cls="input")
-        run.oblige(self.label("init"), spec.inv(self.pre, Num(0), n, self), kind="inv-init",
-                   cls="input")
-        self.verify_body = run.choice("loop-body")
-        if self.verify_body:
+        if not n.concrete or n.t < 0:
+            run.oblige(self.label("bound-nonneg"), n >= 0, kind="inv-init", cls="input")
+        self.spec.on_enter(self)
+        if run.choice("loop-body"):
             i = sym.fresh_int("i_L%d" % self.ordinal)
             self.i = i
             run.assume((i >= 0) & (i < n))
-            self.cur = self._havoc("it")
-            run.assume(spec.inv(self.cur, i, n, self))
+            self.cur = self.spec.iter_state(self, i)
             run.oblige(self.label("reach"), SBool(True), kind="cover", expect="sat")
             yield self.iterable.item(i)
         # generator exhausted: control continues after the loop
 
+    def _pick(self, st, names):
+        from .frontend import UNBOUND
+        out = []
+        for k in names:
+            if k in st:
+                out.append(st[k])
+            elif self.pre.get(k, UNBOUND) is UNBOUND:
+                out.append(POISON)
+            else:
+                out.append(POISON)
+        return tuple(out)
+
     def state(self, names):
-        return tuple(self.cur[k] for k in names)
+        return self._pick(self.cur, names)
 
     def step(self, new_state):
-        run = self.run
-        run.oblige(self.label("step"), self.spec.inv(new_state, self.i + 1, self.n, self),
-                   kind="inv-step", cls="inductive")
+        self.spec.on_step(self, new_state)
         raise EndPath()
 
     def final(self, names):
-        run = self.run
-        st = self._havoc("end")
-        run.assume(self.spec.inv(st, self.n, self.n, self))
-        return tuple(st[k] for k in names)
+        return self._pick(self.spec.exit_state(self), names)
 
 
 class RangeIter:
